@@ -192,7 +192,7 @@ def run(ctx, model_ok, n):
             meta.append((detail, "model of the greedy loop (offsets in placement order)", [r[0] for _, r in pinned] + [r[0] for _, r in todo]))
     if model_ok and exprs:
         outs = coqrun.eval_zlists("From Verif Require Import C04.AllocModel C04.Concretize C04.MemLiveness.\n", exprs, "c04conc",
-                                  shard=max(8, len(exprs) // 4 + 1))
+                                  shard=max(8, len(exprs) // 12 + 1), timeout=900)
         for (detail, what, want), got in zip(meta, outs):
             if got != want:
                 ctx.violation("correspondence-broken", f"{what} disagrees with the real ConcretizeMemLocPass output",
